@@ -133,13 +133,15 @@ SPECS = {
         profiles={"quick": [("MCQueryGen_userfn.cfg", None, {"fnmd": True}), ("MCQueryGen_userfn_d.cfg", None, {"fnmd": True}), _BADCALLS,
                             ("MCQueryGen_userfn_f.cfg", None, {"fnmd": True, "cap": {"quick": 210, "thorough": 2500}}),
                             ("MCQueryGen_userfn_e.cfg", None, {"fnmd": True, "cap": {"quick": 300, "thorough": 3000}}),
-                            ("MCQueryGen_userfn_m.cfg", None, {"fnmd": True, "cap": {"quick": 160, "thorough": 160}})],
+                            ("MCQueryGen_userfn_m.cfg", None, {"fnmd": True, "cap": {"quick": 160, "thorough": 160}}),
+                            ("MCQueryGen_userfn_let.cfg", None, {"fnmd": True, "cap": {"quick": 460, "thorough": 1700}})],
                   "thorough": [("MCQueryGen_userfn_t.cfg", None, {"fnmd": True}), _BADCALLS,
+                               ("MCQueryGen_userfn_let_t.cfg", None, {"fnmd": True, "cap": {"quick": 460, "thorough": 1700}}),
                                ("MCQueryGen_userfn_ft.cfg", None, {"fnmd": True, "cap": {"quick": 210, "thorough": 2500}}),
                                ("MCQueryGen_userfn_et.cfg", None, {"fnmd": True, "cap": {"quick": 300, "thorough": 3000}}),
                                ("MCQueryGen_userfn_m.cfg", None, {"fnmd": True, "cap": {"quick": 160, "thorough": 160}})]},
         events={"quick": 6, "thorough": 16},
-        cap={"quick": 1460, "thorough": 7000},
+        cap={"quick": 2200, "thorough": 9000},
     ),
     "C12": pcheck.PSpec(
         "C12",
